@@ -43,9 +43,19 @@ class Perturb:
         self.rnd = random.Random(seed)
         self.lock = threading.Lock()
         self.n = 0
+        self.slept = 0.0
+        self.stopping = False
+        self.budget = 1.5  # seconds of injected delay per episode: a free-running source queues thousands of connection tasks
+
+    def new_episode(self):
+        self.slept = 0.0
+        self.stopping = False
 
     def __call__(self, name, ctx):
-        if name != "task_start":
+        if name == "stop_flipped":
+            self.stopping = True  # let the backlog drain at full speed once stop() has begun
+            return
+        if name != "task_start" or self.stopping or self.slept >= self.budget:
             return
         owner = ctx["owner"]
         is_conn = hasattr(owner, "connection")
@@ -70,6 +80,7 @@ class Perturb:
             d = 0.003 if fn in ("push_scheduled_ts", "push_phase_shift") else 0.0
         self.n += 1
         if d > 0:
+            self.slept += d
             time.sleep(d)
 
 
